@@ -69,66 +69,8 @@ class Shared:
 
 
 def _worker_classes():
-    from windpyutils.parallel.own_proc_pools import FunctorWorker, FunctorWorkerFactory
-
-    class HWorker(FunctorWorker):
-        """The repository's worker with logging begin / functor / end; everything else is inherited."""
-
-        def __init__(self, shared, quota=math.inf, fault=None, serial=0, end_delay=0, begin_delay=0):
-            super().__init__(max_chunks_per_worker=quota)
-            self.sh = shared
-            self.fault = fault      # None | ("begin",) | ("item", call, idx)
-            self.serial = serial    # n-th worker object created for this pool
-            self.end_delay = end_delay
-            self.begin_delay = begin_delay
-            self.items_done = 0
-
-        def run(self):
-            instr.reset_for_child(f"worker{self.wid}")
-            super().run()
-
-        def begin(self):
-            self.sh.log("begin_enter", wid=self.wid, serial=self.serial)
-            if self.begin_delay:
-                self.sh.nap(self.begin_delay)      # a slow begin(): until_all_ready() has something to wait for
-            if self.fault and self.fault[0] == "begin":
-                self.sh.log("begin_raise", wid=self.wid)
-                raise RuntimeError("injected fault in begin()")
-            self.sh.log("begin_exit", wid=self.wid)
-
-        def __call__(self, x):
-            call, idx, dur = x[:3]
-            self.items_done += 1
-            self.sh.log("item", wid=self.wid, call=call, idx=idx)
-            if self.fault and self.fault[0] == "item" and self.fault[1] == call and self.fault[2] == idx:
-                self.sh.log("item_raise", wid=self.wid, call=call, idx=idx)
-                raise RuntimeError("injected fault in functor")
-            if dur:
-                self.sh.nap(dur)
-            return (call, idx, "r" * x[3]) if len(x) > 3 else (call, idx)
-
-        def end(self):
-            self.sh.log("end_enter", wid=self.wid)
-            if self.end_delay and self.items_done:
-                self.sh.nap(self.end_delay)        # a slow end(): whoever forgets to join this worker is caught
-            self.sh.log("end_exit", wid=self.wid)
-
-    class HFactory(FunctorWorkerFactory):
-        def __init__(self, shared, quota, faults, end_delay=0, begin_delay=0):
-            self.sh = shared
-            self.quota = quota
-            self.faults = faults or {}   # serial -> fault
-            self.created = 0
-            self.end_delay = end_delay
-            self.begin_delay = begin_delay
-
-        def create(self):
-            w = HWorker(self.sh, self.quota, self.faults.get(self.created), self.created, self.end_delay,
-                        self.begin_delay if self.created % 2 == 0 else 0)
-            self.created += 1
-            return w
-
-    return HWorker, HFactory
+    from vf import pool_workers
+    return pool_workers
 
 
 # ------------------------------------------------------------------------------------ inputs
@@ -340,7 +282,9 @@ def run_case_here(case, outpath, scratch):
     from windpyutils.parallel import own_proc_pools as opp
     ctx = multiprocessing.get_context(case.get("start", "fork"))
     sh = Shared(ctx, os.path.join(scratch, "events.log"))
-    HWorker, HFactory = _worker_classes()
+    pw = _worker_classes()
+    start_method = case.get("start", "fork")
+    plan_items = [[[r, q, rel, o], [k, a]] for r, q, rel, o, k, a in case.get("plan", [])]
     tier = case.get("tier", "quick")
     state = {"phase": "setup", "pool": None, "calls": [], "done": False}
     lock = threading.Lock()
@@ -392,12 +336,14 @@ def run_case_here(case, outpath, scratch):
         quota = case.get("quota") or math.inf
         faults = {int(k): tuple(v) for k, v in (case.get("faults") or {}).items()}
         if case["pool"] == "factory":
-            pool = opp.FactoryFunctorPool(case["workers"], HFactory(sh, quota, faults, case.get("end_delay", 0),
-                                                                    case.get("begin_delay", 0)), context=ctx,
-                                          work_queue_maxsize=wq, results_queue_maxsize=rq)
+            pool = opp.FactoryFunctorPool(case["workers"],
+                                          pw.HFactory(sh, quota, faults, case.get("end_delay", 0), case.get("begin_delay", 0),
+                                                      start_method, plan_items),
+                                          context=ctx, work_queue_maxsize=wq, results_queue_maxsize=rq)
         else:
-            workers = [HWorker(sh, math.inf, faults.get(i), i, case.get("end_delay", 0),
-                               case.get("begin_delay", 0) if i % 2 == 0 else 0) for i in range(case["workers"])]
+            wcls = pw.WORKER_CLASS[start_method]
+            workers = [wcls(sh, math.inf, faults.get(i), i, case.get("end_delay", 0),
+                            case.get("begin_delay", 0) if i % 2 == 0 else 0, plan_items) for i in range(case["workers"])]
             pool = opp.FunctorPool(workers, context=ctx, work_queue_maxsize=wq, results_queue_maxsize=rq)
         state["pool"] = pool
         state["phase"] = "pool_enter"
